@@ -20,6 +20,7 @@ func main() {
 	keep := flag.Bool("keep", false, "keep SMT files")
 	only := flag.String("func", "", "only functions whose contract name contains this")
 	replay := flag.String("replay", "", "re-run the replay adapter for a replay file")
+	hints := flag.Bool("hints", false, "write lib/locals.json (name hints) from the current tree")
 	flag.Parse()
 	if *replay != "" {
 		os.Exit(replayFile(*verif, *root, *replay))
@@ -36,6 +37,21 @@ func main() {
 	if err != nil {
 		fmt.Fprintln(os.Stderr, err)
 		os.Exit(2)
+	}
+	if *hints {
+		if err := loadPrelude(*verif); err != nil {
+			fmt.Fprintln(os.Stderr, err)
+			os.Exit(2)
+		}
+		cs, err := loadContracts(p, *verif)
+		if err != nil {
+			fmt.Fprintln(os.Stderr, err)
+			os.Exit(2)
+		}
+		if err := writeHints(p, cs, *verif); err != nil {
+			fmt.Fprintln(os.Stderr, err)
+			os.Exit(2)
+		}
 	}
 	if *list {
 		for _, n := range p.FuncNames() {
